@@ -114,6 +114,10 @@ def run_contract(contract, args, g):
     env['result'] = result
     env['old'] = lambda x: x
     skipped = 0
+    if 'oracle' in g:
+        v = g['oracle'](old, result, exc)
+        if v:
+            return 'VIOLATED oracle: %s' % v
     if exc is not None:
         matched = None
         for cls, cond in contract['raises'].items():
